@@ -269,3 +269,90 @@ Lemma chunkinfo_resp_found_panics :
   chunkinfo_resp false (mkCIState [1] (Some 3) false None) true
      (Some (mkCIResp [9] [2] [1] (Some [([48;50], [])]))) = Panicked.
 Proof. split; reflexivity. Qed.
+
+(** ---- multicast ---- *)
+Lemma group_touch_val maxpo self peer : group_touch maxpo self peer = Val tt.
+Proof. unfold group_touch. destruct (pslice_bin_val maxpo 1 self peer ltac:(lia)) as [b ->]. reflexivity. Qed.
+
+Lemma for_each_touch maxpo self peer (gids : list (list N)) :
+  for_each (fun _ => group_touch maxpo self peer) gids = Val tt.
+Proof.
+  assert (G : forall (f : list N -> res unit), (forall x, f x = Val tt) -> forall l, for_each f l = Val tt).
+  { intros f Hf l. induction l as [|g r IH]; cbn; [reflexivity|]. rewrite Hf; cbn. exact IH. }
+  apply G. intros _. apply group_touch_val.
+Qed.
+
+Lemma mc_handshake_total maxpo self peer m : mc_handshake maxpo self peer m <> Panicked.
+Proof. unfold mc_handshake. destruct m; cbn; [rewrite for_each_touch|]; cbn; discriminate. Qed.
+
+Lemma mc_notify_total maxpo self peer m : mc_notify maxpo self peer m <> Panicked.
+Proof.
+  unfold mc_notify. destruct m as [[st gids]|]; cbn; [|discriminate].
+  destruct ((st =? 1) || (st =? 2))%Z; [rewrite for_each_touch|]; cbn; discriminate.
+Qed.
+
+Lemma mc_find_group_total mt served m : mc_find_group mt served m <> Panicked.
+Proof. unfold mc_find_group. destruct m, served; cbn; try discriminate. destruct (_ <? _)%Z; cbn; discriminate. Qed.
+
+Lemma mc_message_total j s m sf : mc_message true j s m sf <> Panicked.
+Proof. unfold mc_message. destruct m as [g|], j, s, sf; cbn; try discriminate; destruct (gm_type g =? 1)%Z; cbn; discriminate. Qed.
+
+Lemma mc_message_found_panics :
+  mc_message false true true (Some (mkGroupMsg [1] [] 1 [])) true = Panicked.
+Proof. reflexivity. Qed.
+
+(** ---- routetab ---- *)
+Lemma rt_save_path_val p : rt_save_path p = Val tt.
+Proof.
+  unfold rt_save_path, index. destruct (length (rp_items p) <? 2)%nat eqn:E; [reflexivity|].
+  apply Nat.ltb_ge in E.
+  destruct (nth_error (rp_items p) (length (rp_items p) - 1)) eqn:En; [reflexivity|].
+  apply nth_error_None in En. lia.
+Qed.
+
+Lemma for_each_val {A} (f : A -> res unit) : (forall x, f x = Val tt) -> forall l, for_each f l = Val tt.
+Proof. intros Hf l. induction l as [|g r IH]; cbn; [reflexivity|]. rewrite Hf; cbn. exact IH. Qed.
+
+Lemma rt_req_scan_no_pan mt self paths : rt_req_scan mt self paths <> Pan.
+Proof.
+  induction paths as [|p r IH]; cbn [rt_req_scan]; [discriminate|].
+  destruct (mt <? length (rp_items p))%nat; [discriminate|].
+  destruct (member self (rp_items p)); [discriminate|exact IH].
+Qed.
+
+Lemma rt_req_total mt self m : rt_req mt self m <> Panicked.
+Proof.
+  unfold rt_req. destruct m as [[d paths]|]; cbn; [|discriminate].
+  pose proof (rt_req_scan_no_pan mt self paths) as H.
+  destruct (rt_req_scan mt self paths) as [[]|e|]; cbn; try discriminate; [|contradiction].
+  rewrite (for_each_val _ rt_save_path_val). discriminate.
+Qed.
+
+Lemma rt_resp_total mt self m : rt_resp mt self m <> Panicked.
+Proof.
+  unfold rt_resp. destruct m as [[d paths]|]; cbn; [|discriminate].
+  destruct (filter _ paths) as [|p now]; cbn; [discriminate|].
+  match goal with |- context [if ?c then _ else _] => destruct c end; cbn; try discriminate.
+  rewrite rt_save_path_val; cbn. rewrite (for_each_val _ rt_save_path_val). discriminate.
+Qed.
+
+Lemma rt_small_total in_book self is_conn sig_ok m1 m2 m3 :
+  rt_underlay in_book m1 <> Panicked /\ rt_connchain self is_conn m2 <> Panicked /\ rt_find_underlay sig_ok m3 <> Panicked.
+Proof.
+  repeat split.
+  - unfold rt_underlay. destruct m1, in_book; cbn; discriminate.
+  - unfold rt_connchain. destruct m2 as [[d sm]|]; cbn; [|discriminate].
+    destruct (bytes_eqb d self); [destruct (mode_ok sm)|destruct is_conn]; cbn; discriminate.
+  - unfold rt_find_underlay. destruct m3, sig_ok; cbn; discriminate.
+Qed.
+
+(** ---- retrieval ---- *)
+Lemma retrieval_handler_total self h f k m d : retrieval_handler self h f k m d <> Panicked.
+Proof.
+  unfold retrieval_handler. destruct m as [req|]; cbn; [|discriminate].
+  destruct h; cbn.
+  - destruct f, k; cbn; discriminate.
+  - destruct (bytes_eqb (rq_target req) self); cbn; [discriminate|].
+    destruct d as [[data v]|]; cbn; [|discriminate].
+    destruct v, k, f; cbn; discriminate.
+Qed.
